@@ -9,10 +9,12 @@
 EXTENDS Search, SequencesExt, Json, IOUtils
 
 CONSTANTS RepGE,        \* TRUE: repaired repetition test
-          RootGuard     \* TRUE: the root re-checks the clock before accepting
+          RootGuard,    \* TRUE: the root re-checks the clock before accepting
+          MaxPly,       \* length of the per-ply tables (100 in the code; 3 in the configurations that exercise the bound)
+          PlyGuard      \* TRUE: repaired - nodes beyond the tables are horizon nodes
 Trees == ndJsonDeserialize(IOEnv.TREES)
 MaxD == atoi(IOEnv.MAXD)
-Sw == [repGE |-> RepGE, rootGuard |-> RootGuard]
+Sw == [repGE |-> RepGE, rootGuard |-> RootGuard, maxPly |-> MaxPly, plyGuard |-> PlyGuard]
 Big == 100000000
 
 Rep0(T) == [i \in {T.rep0[j][1] : j \in 1..Len(T.rep0)} |-> (T.rep0[CHOOSE j \in 1..Len(T.rep0) : T.rep0[j][1] = i][2])]
@@ -33,6 +35,7 @@ LastOf(F, D) == LET idx == {i \in 1..Len(F.infos) : F.infos[i][2] = D} IN
 PrefixOk(R, F) == IsPrefix(R.infos, F.infos)
 SendsOk(T, R) == R.sends = Acc(R) \/ (Acc(R) = <<>> /\ R.sends = <<T.roots[1]>>)
 RepRestored(T, R) == Norm(R.st.rep) = Norm(Rep0(T))
+NoPanic(R) == ~R.st.oob
 \* C18: no sentinel, within mate magnitude, depth non-decreasing, strictly increasing inside a depth, mate never 0
 ScoresOk(R) ==
   /\ \A i \in 1..Len(R.infos) : LET x == R.infos[i][4] IN
@@ -55,7 +58,7 @@ MateInOne(T, F) == (\E r \in ToSet(T.roots) : T.chk[r] /\ Len(T.kids[r]) = 0 /\ 
 AllOk == LET T == Trees[ti]
              F == Full(T)
              R == Run(T, Sw, k, Rep0(T), MaxD)
-         IN /\ PrefixOk(R, F) /\ SendsOk(T, R) /\ RepRestored(T, R) /\ ScoresOk(R)
+         IN /\ PrefixOk(R, F) /\ SendsOk(T, R) /\ RepRestored(T, R) /\ ScoresOk(R) /\ NoPanic(R)
             /\ (k = F.st.q => Exact(T, F) /\ RepDraw(T, F) /\ MateInOne(T, F))
 
 \* the same, separately (used by the bug-variant configurations to name the failing conjunct)
@@ -63,6 +66,7 @@ InvPrefix == LET T == Trees[ti] IN PrefixOk(Run(T, Sw, k, Rep0(T), MaxD), Full(T
 InvSends == LET T == Trees[ti] IN SendsOk(T, Run(T, Sw, k, Rep0(T), MaxD))
 InvRep == LET T == Trees[ti] IN RepRestored(T, Run(T, Sw, k, Rep0(T), MaxD))
 InvScores == LET T == Trees[ti] IN ScoresOk(Run(T, Sw, k, Rep0(T), MaxD))
+InvNoPanic == LET T == Trees[ti] IN NoPanic(Run(T, Sw, k, Rep0(T), MaxD))
 InvExact == LET T == Trees[ti] IN Exact(T, Full(T))
 InvRepDraw == LET T == Trees[ti] IN RepDraw(T, Full(T))
 InvMateInOne == LET T == Trees[ti] IN MateInOne(T, Full(T))
